@@ -8,7 +8,7 @@ EXPLANATION = (
     "builder + FlatGraphBuilder link resolution) for a fragment of HydroNode: for ALL flows of the fragment and "
     "all rankings of cycle ids, `guarded` (synchronous dependencies between cycles acyclic) implies the emitted "
     "same-tick dependency graph is acyclic, i.e. the partitioner's acceptance criterion; Tick::cycle-only flows are "
-    "always guarded; every operator the emitter writes respects the input arity ranges of the operator table "
+    "always guarded; every operator the emitter writes, and every node of every emitted graph, respects the input arity ranges of the operator table "
     "regenerated from /repo on every run. The property's full statement is REFUTED on the model and on the code "
     "(two known findings, re-derived each run). Tie: for each corpus flow (typed API, rustc-checked) the IR, the flat "
     "graph emitted by the real emit(), FlatGraphBuilder::build and the real partition_graph verdict are compared with "
@@ -22,7 +22,7 @@ class C41(vlib.Spec):
     model_vo = ["theories/HydroB/PC41.vo"]
     props_vo = "theories/Props/C41.vo"
     theorems = ["C41_guarded_accepted_partial", "C41_tick_cycles_accepted_partial",
-                "C41_emitter_arities_partial", "C41_refuted_sync_forward_ref", "C41_refuted_unimplemented"]
+                "C41_emitter_arities_partial", "C41_emitted_in_arities_partial", "C41_refuted_sync_forward_ref", "C41_refuted_unimplemented"]
     crate, group, binary = "h_hydro_b", "hydro", "h_hydro_b"
     imports = ("From Coq Require Import List String NArith.\n"
                "From HV Require Import HydroB.Model HydroB.GenOps.\nImport ListNotations.\nOpen Scope string_scope.")
